@@ -34,6 +34,9 @@ structure Cl where
   gen : Nat := 0
   armed : Option Nat := none                    -- node whose next snapshot is suspended after its capture
   pending : Option (Nat × Nat × LTXFile) := none -- (primary, replica, captured snapshot) of a suspended stream
+  bgHalt : List (Nat × String) := []             -- halt requests issued in the background: (node, lock id)
+  cidArmed : Bool := false                      -- lease-service fault: after the next acquisition the cluster id cannot be read
+  cidErr : Bool := false                        -- ... the fault is active: every cluster-id lookup fails
 
 def Cl.setNode (c : Cl) (k : Nat) (n : Node) : Cl := { c with nodes := c.nodes.setIfInBounds k n }
 
@@ -87,6 +90,18 @@ def settleLease (c : Cl) : Cl :=
     (match c.nodes[k]? with
      | some n =>
        if n.eng.exit ≠ 0 then c else
+       -- the lease loop reads the cluster id at the top of every iteration: while that fails
+       -- nobody acquires (or connects)
+       if c.cidErr then c else
+       if c.cidArmed then
+         -- the node wins the lease, then cannot read the cluster id in monitorLeaseAsPrimary: it
+         -- gives the lease back (destroys it) and is not primary
+         (match Lease.acquire c.svc k n.lnode s!"G{c.gen + 1}" with
+          | some (s, _) =>
+            let c := c.withSvc { s with holder := none, cid := c.svcCid, events := s.events ++ [s!"release {k}"] }
+            ({ c with cidArmed := false, cidErr := true }).setNode k { n with eng := recoverEng n.eng }
+          | none => c)
+       else
        (match Lease.acquire c.svc k n.lnode s!"G{c.gen + 1}" with
         | some (s, ln) =>
           let c := if ln.cid == s!"G{c.gen + 1}" then { c with gen := c.gen + 1 } else c
@@ -162,6 +177,43 @@ def releaseHalt (c : Cl) : Cl :=
 
 def stamp (e : Eng) (ident : Nat) : Eng :=
   { e with ltx := e.ltx.map fun f => if f.nodeID = 0 then { f with nodeID := ident } else f }
+
+/-- `AcquireRemoteHaltLock` issued on node `k` with lock id `id` -/
+def haltOp (c : Cl) (k id : String) : Cl × String :=
+  (match k.toNat? >>= fun k => c.nodes[k]?.map fun n => (k, n), id.toInt? with
+   | some (k, n), some id =>
+     if !n.up || !n.eng.hasDB then (c, "bad-op") else
+     if c.holder = some k then (c, "err primary") else
+     (match c.holder with
+      | none => (c, "err")
+      | some p =>
+        if !n.net then (c, "err") else
+        match c.nodes[p]? with
+        | none => (c, "err")
+        | some pn =>
+          -- the primary grants (or repeats) the lock
+          let granted : Option (Cl × Nat × UInt64) :=
+            match c.halt with
+            | some (hp, hid, _, t, ch) =>
+              if hp = p ∧ hid = id then some (c, t, ch) else none
+            | none =>
+              let pe := if pn.eng.hasDB then pn.eng else { pn.eng with hasDB := true, dbFile := some ByteArray.empty }
+              match pe.locks.tryAcquireWriteLock pe.walMode with
+              | (_, none) => none
+              | (t, some i) =>
+                let e1 := { pe with locks := t, held := some i }
+                let e2 := match Recovery.rollbackJournal e1 with
+                  | .ok s1 => (match checkpointNoLock s1 with | .ok s2 => s2 | .error _ => s1)
+                  | .error _ => e1
+                some ({ (c.setNode p { pn with eng := e2 }) with halt := some (p, id, c.ttlShort, e2.posTxid, e2.posChk) }, e2.posTxid, e2.posChk)
+          match granted with
+          | none => (c, "err")
+          | some (c, t, ch) =>
+            let n' := { n with eng := { n.eng with remoteHalt := true }, remoteId := some id }
+            let c := c.setNode k n'
+            if n.eng.posTxid = t ∧ n.eng.posChk = ch then (c, s!"ok pos={t}:{EngineD.hex16 ch}")
+            else (releaseHalt c, "err"))
+   | _, _ => (c, "bad-op"))
 
 def step (c : Cl) (line : String) : Cl × String :=
   let f := words line
@@ -263,41 +315,17 @@ def step (c : Cl) (line : String) : Cl × String :=
      | some k, some (p, _, true, _, _) => if p = k then (releaseHalt c, "ok") else (c, "ok")
      | some _, _ => (c, "ok")
      | none, _ => (c, "bad-op"))
-  | ["halt", k, id] =>
-    (match k.toNat? >>= fun k => c.nodes[k]?.map fun n => (k, n), id.toInt? with
-     | some (k, n), some id =>
-       if !n.up || !n.eng.hasDB then (c, "bad-op") else
-       if c.holder = some k then (c, "err primary") else
-       (match c.holder with
-        | none => (c, "err")
-        | some p =>
-          if !n.net then (c, "err") else
-          match c.nodes[p]? with
-          | none => (c, "err")
-          | some pn =>
-            -- the primary grants (or repeats) the lock
-            let granted : Option (Cl × Nat × UInt64) :=
-              match c.halt with
-              | some (hp, hid, _, t, ch) =>
-                if hp = p ∧ hid = id then some (c, t, ch) else none
-              | none =>
-                let pe := if pn.eng.hasDB then pn.eng else { pn.eng with hasDB := true, dbFile := some ByteArray.empty }
-                match pe.locks.tryAcquireWriteLock pe.walMode with
-                | (_, none) => none
-                | (t, some i) =>
-                  let e1 := { pe with locks := t, held := some i }
-                  let e2 := match Recovery.rollbackJournal e1 with
-                    | .ok s1 => (match checkpointNoLock s1 with | .ok s2 => s2 | .error _ => s1)
-                    | .error _ => e1
-                  some ({ (c.setNode p { pn with eng := e2 }) with halt := some (p, id, c.ttlShort, e2.posTxid, e2.posChk) }, e2.posTxid, e2.posChk)
-            match granted with
-            | none => (c, "err")
-            | some (c, t, ch) =>
-              let n' := { n with eng := { n.eng with remoteHalt := true }, remoteId := some id }
-              let c := c.setNode k n'
-              if n.eng.posTxid = t ∧ n.eng.posChk = ch then (c, s!"ok pos={t}:{EngineD.hex16 ch}")
-              else (releaseHalt c, "err"))
-     | _, _ => (c, "bad-op"))
+  | ["halt", k, id] => haltOp c k id
+  -- the same request issued while an application transaction on the primary is still open: it
+  -- queues behind the application's locks and is answered once they are released (`halt-join`)
+  | ["halt-bg", k, id] =>
+    (match k.toNat? >>= fun k => c.nodes[k]?.map fun n => (k, n) with
+     | some (k, n) => if !n.up || !n.eng.hasDB then (c, "bad-op") else ({ c with bgHalt := (k, id) :: c.bgHalt.filter (·.1 ≠ k) }, "started")
+     | none => (c, "bad-op"))
+  | ["halt-join", k] =>
+    (match k.toNat? >>= fun k => c.bgHalt.lookup k with
+     | some id => haltOp { c with bgHalt := c.bgHalt.filter (fun e => some e.1 ≠ k.toNat?) } k id
+     | none => (c, "bad-op"))
   | ["unhalt", k, id] =>
     (match k.toNat? >>= fun k => c.nodes[k]?.map fun n => (k, n), id.toInt? with
      | some (k, n), some id =>
@@ -365,6 +393,11 @@ def step (c : Cl) (line : String) : Cl × String :=
       | none => ""
     let h : String := match c.holder with | some k => toString k | none => "-1"
     (c, " ".intercalate per ++ s!" svc={h}/{cls c.svcCid}")
+  | ["cid-fault", v] =>
+    if v == "arm" then ({ c with cidArmed := true }, "ok")
+    else if v == "off" then (settle { c with cidArmed := false, cidErr := false }, "ok")
+    else if v == "wait" then (let c := settle c; (c, if c.cidErr then "fired" else "not-fired"))
+    else (c, "bad-op")
   | ["events"] =>
     (match c.events with
      | [] => (c, "-")
